@@ -230,3 +230,26 @@ theorem planOperation_vars {env : Env} {fuel : Nat} {operation : String} {sels :
   buildSteps_vars env fuel _ _ _ _ _ h (by intro s hs; cases hs)
 
 end Pl
+
+namespace Pl
+
+/-- the operation built for a dependent step declares the join variable `id`, and uses it in `node(id: $id)` -/
+theorem dependent_step_declares_id (s : Step) (h : isRootType s.parentType = false) :
+    "id" ∈ builtVars s ∧ ∃ sub, builtSelection s = [.field "node" "node" "(id: $id)" ["id"] [] "Node" sub] := by
+  constructor
+  · unfold builtVars
+    simp only [h, Bool.false_or]
+    split
+    · rename_i hc
+      exact List.mem_eraseDups.2 (by simpa using hc)
+    · exact List.mem_append.2 (Or.inr (by simp))
+  · unfold builtSelection
+    simp [h]
+
+/-- the operation built for a root step is the step's selection itself, with the step's variables -/
+theorem root_step_sends_its_selection (s : Step) (h : isRootType s.parentType = true) :
+    builtSelection s = s.sel ∧ builtVars s = s.vars.eraseDups := by
+  unfold builtSelection builtVars
+  simp [h]
+
+end Pl
